@@ -72,10 +72,29 @@ Judge(in, r) ==
                               /\ (B64Canonical(in) => r.out = B64Dec(in))
                               /\ (Strict /\ ds >= 0 => r.out = B64Dec(in))
 
+\* "Range": the (begin,end) forms on sub-ranges of larger buffers (adversarial neighbouring bytes, ranges ending /
+\* starting at an inaccessible page) together with the std::string forms on a copy of exactly the range.  Every
+\* result is judged by the range content alone (Judge), and the forms of one function must agree (RangeLocal):
+\* the output depends on [begin,end) only.
+Base == [ escape_str |-> "escape", escape_sb |-> "escape", escape_os |-> "escape",
+          urlencode_str |-> "urlencode", urlencode_sb |-> "urlencode", urlencode_os |-> "urlencode",
+          urldecode_str |-> "urldecode", urldecode_ptr |-> "urldecode",
+          b64enc_str |-> "b64enc", b64enc_ptr |-> "b64enc", b64enc_os |-> "b64enc",
+          b64dec_str |-> "b64dec", b64dec_ptr |-> "b64dec" ]
+Bases(g) == { Base[g.fns[i]] : i \in { k \in 1..Len(g.fns) : g.fns[k] \in DOMAIN Base } }
+\* b64url::decode(string) refuses a length of 1 mod 4, the pointer form decodes the complete blocks
+Usable(g) == g.sink = "none" /\ ~g.fail /\ ~(g.fns[1] = "b64dec_str" /\ g.ret # 1)
+RangeLocal(r) ==
+    \A i \in 1..Len(r) : \A j \in 1..Len(r) :
+        (i < j /\ Usable(r[i]) /\ Usable(r[j]) /\ Bases(r[i]) \cap Bases(r[j]) # {}) => r[i].out = r[j].out
+
 TReset == Is("Reset")
 CallOk == \A i \in 1..Len(Ev.r) : Judge(Ev.in, Ev.r[i])
 TCall  == Is("Call") /\ CallOk
-TExplain == Explain /\ Is("Call") /\ ~CallOk /\ PrintT(<<"EXPLAIN-REJECT", l>>)
+TRange == Is("Range") /\ CallOk /\ RangeLocal(Ev.r)
+TExplain == /\ Explain
+            /\ (Is("Call") /\ ~CallOk) \/ (Is("Range") /\ ~(CallOk /\ RangeLocal(Ev.r)))
+            /\ PrintT(<<"EXPLAIN-REJECT", l>>)
 
 \* encode with the real encoder, decode the result with the real decoder
 TRound ==
@@ -106,6 +125,6 @@ TRow ==
           /\ Ev.rt_b64_ok[k] = 1 /\ Ev.rt_b64[k] = s
 
 TraceInit == Init /\ l = 1
-TraceNext == TReset \/ TCall \/ TExplain \/ TRound \/ TSizes \/ TRow
+TraceNext == TReset \/ TCall \/ TRange \/ TExplain \/ TRound \/ TSizes \/ TRow
 TraceSpec == TraceInit /\ [][TraceNext]_tvars
 =============================================================================
